@@ -849,6 +849,12 @@ func (fc *FnCtx) doInvoke2(cc *ssa.CallCommon, recv Val, it types.Type, mname, i
 				}
 			}
 			env.resName = c.Results
+			if len(env.resName) == 0 {
+				rs := cd.fn.Signature.Results()
+				for i := 0; i < rs.Len(); i++ {
+					env.resName = append(env.resName, rs.At(i).Name())
+				}
+			}
 			env.st, env.old = pre, pre
 			if sealed {
 				for i, r := range c.Requires {
@@ -913,6 +919,11 @@ func (fc *FnCtx) applyIfaceContract(c *Contract, cc *ssa.CallCommon, recv Val, a
 		env.vars[fmt.Sprintf("arg%d", i)] = env.vars[n]
 	}
 	env.resName = c.Results
+	if len(env.resName) == 0 {
+		for i := 0; i < sig.Results().Len(); i++ {
+			env.resName = append(env.resName, sig.Results().At(i).Name())
+		}
+	}
 	pre := fc.cur
 	env.st, env.old = pre, pre
 	for i, r := range c.Requires {
